@@ -137,8 +137,8 @@ def lattice(thorough):
         def st(sim, o=o):
             sim.integrator = "janus"
             sim.ri_janus.order = o
-            sim.ri_janus.scale_pos = 1e-16
-            sim.ri_janus.scale_vel = 1e-16
+            sim.ri_janus.scale_pos = 1e-16          # distinct grid scales (both documented options)
+            sim.ri_janus.scale_vel = 3e-16
         L.append(dict(name="janus/%d" % o, fam="janus", terms=[(0, o)], set=st))
     for safe in (1, 0):
         def st(sim, safe=safe):
@@ -525,8 +525,17 @@ def run(c):
     D = None
     changed = []
     try:
-        with LeanLock():
-            D, changed = X.write_gen(REPO, LEAN, write_if_changed)
+        def locked_write(path, content):
+            # the lean lock is only taken when a generated file really has to be rewritten (other builders hold it for minutes)
+            try:
+                with open(path) as f:
+                    if f.read() == content:
+                        return False
+            except FileNotFoundError:
+                pass
+            with LeanLock():
+                return write_if_changed(path, content)
+        D, changed = X.write_gen(REPO, LEAN, locked_write)
         c.cov["gen_files_rewritten"] = changed
         c.cov["extracted"] = {"tables": len(D["tables"]), "literals": sum(t["explicit"] for t in D["tables"].values()),
                               "saba_schedules": len(D["saba"]), "whfast_accepted": sum(1 for e in D["whfast"] if not e["rejected"]),
@@ -565,12 +574,12 @@ def run(c):
         txt = " ".join(c.broken)
         import re as _re
         fams = {"Saba": "saba", "Whfast": "whfast", "Eos": "eos", "Janus": "janus", "Leapfrog": "leapfrog", "Ias15": "ias15",
-                "Mercurius": "mercurius"}
+                "Mercurius": "mercurius", "Trace": "trace", "Bs": "bs"}
         for line in txt.splitlines():
             if "error" in line.lower() or "✖" in line:
-                for m in _re.finditer(r"Proofs[/.]C01(Saba|Whfast|Eos|Janus|Leapfrog|Ias15|Mercurius)", line):
+                for m in _re.finditer(r"Proofs[/.]C01(Saba|Whfast|Eos|Janus|Leapfrog|Ias15|Mercurius|Trace|Bs)", line):
                     focus.add(fams[m.group(1)])
-            m = _re.search(r"translator: .*?\[(saba|whfast|eos|janus|leapfrog|ias15|mercurius)\]", line)
+            m = _re.search(r"translator: .*?\[(saba|whfast|eos|janus|leapfrog|ias15|mercurius|trace|bs)\]", line)
             if m:
                 focus.add(m.group(1))
         if not focus:
@@ -753,6 +762,50 @@ def extra_checks(c, rebound, clib, d, syss, ref):
             if errs[0] > 2e-9 or errs[1] > 2e-11:
                 c.violation("ias15:fixed-step", "IAS15 with fixed steps dt=1, 0.5 on %s: errors %s (15th order: expected at round-off)" % (nm, errs),
                             dict(system=sd, errors=errs, T=T, epsilon=0))
+    # ---------------- IAS15 exactness (theorems c01_ias15_sweep_exact / c01_ias15_step_exact observed on the compiled code): a force that
+    #                  is a polynomial of degree <= 13 in time only is integrated exactly (to rounding) in ONE step of any size and sign
+    #                  (measured <= 1.5e-13 relative; degree 14: 6e-8 .. 1.5e-5)
+    worst, sharp = 0.0, 1.0
+    for dgr in list(range(0, 14)) + [14]:
+        for dt in (0.37, 2.5, -1.7):
+            for mode in ((0, 2) if dgr in (3, 7, 13) else (2,)):
+                sim = rebound.Simulation()
+                sim.integrator = "ias15"
+                sim.ri_ias15.epsilon = 0
+                sim.ri_ias15.adaptive_mode = mode
+                sim.gravity = "none"
+                sim.add(m=1.0, x=0.3, y=-0.2, z=0.1, vx=0.5, vy=0.25, vz=-0.125)
+                t0 = 0.4
+                sim.t = t0
+
+                def frc(simp, dgr=dgr):
+                    s_ = simp.contents
+                    t_ = s_.t
+                    s_.particles[0].ax += (t_ - 0.1) ** dgr
+                    s_.particles[0].ay += -2 * (t_ + 0.2) ** dgr
+                    s_.particles[0].az += 0.5 * t_ ** dgr
+                sim.additional_forces = frc
+                sim.dt = dt
+                sim.steps(1)
+                T_ = sim.t
+                p_ = sim.particles[0]
+                e_ = 0.0
+                for (cc_, kk_, x0_, v0_, x_, v_) in ((-0.1, 1, 0.3, 0.5, p_.x, p_.vx), (0.2, -2, -0.2, 0.25, p_.y, p_.vy), (0.0, 0.5, 0.1, -0.125, p_.z, p_.vz)):
+                    A_ = lambda t: (t + cc_) ** (dgr + 1) / (dgr + 1)
+                    B_ = lambda t: (t + cc_) ** (dgr + 2) / ((dgr + 1) * (dgr + 2))
+                    dv_ = kk_ * (A_(T_) - A_(t0))
+                    dx_ = kk_ * (B_(T_) - B_(t0) - A_(t0) * (T_ - t0))
+                    e_ = max(e_, abs(x_ - (x0_ + v0_ * (T_ - t0) + dx_)) / max(1, abs(x_)), abs(v_ - (v0_ + dv_)) / max(1, abs(v_)))
+                c.count(("ias15-poly", dgr, dt, mode))
+                if dgr <= 13:
+                    worst = max(worst, e_)
+                    if not e_ <= 5e-12:
+                        c.violation("ias15:polynomial-exactness", "IAS15 does not integrate the time-only force of degree %d exactly in one step dt=%g (adaptive_mode %d): relative error %.2e" % (dgr, dt, mode, e_),
+                                    dict(degree=dgr, dt=dt, adaptive_mode=mode, relative_error=e_, t0=t0))
+                elif abs(dt) > 1:
+                    sharp = min(sharp, e_)
+    res["ias15_time_polynomial_force_worst_relative_error_deg<=13"] = float("%.2e" % worst)
+    res["ias15_time_polynomial_force_smallest_error_deg14"] = float("%.2e" % sharp)
     # ---------------- BS: error shrinks with the tolerance
     for nm in ("two_planets", "tp0"):
         sd = bysys[nm]
@@ -813,6 +866,34 @@ def extra_checks(c, rebound, clib, d, syss, ref):
         if not (errs[0][0] < 1e-2 and errs[1][0] < 1e-5 and errs[2][0] < 1e-8 and errs[2][1] < 3e-9):
             c.violation("bs:user-ode", "user ODE (harmonic oscillator, coupled=%s) with BS does not converge: %s" % (coupled, errs),
                         dict(coupled=coupled, errors=errs))
+    # ---------------- BS exactness (theorems c01_bs_extrapolation_exact / c01_bs_quadrature_exact observed on the compiled code):
+    #                  a user ODE y' = (t - c)^d is integrated exactly (to rounding) for d <= 2k+1 when k+1 rows are used; at least two
+    #                  rows are always used: d <= 3 is exact at every tolerance (how many more rows a step uses depends on the error estimate)
+    poly = {}
+    for eps, dmax in ((1e-3, 3), (1e-6, 3), (1e-9, 3)):
+        for sg in (1, -1):
+            for dgr in range(dmax + 1):
+                sim = rebound.Simulation()
+                sim.add(m=1.0)
+                sim.integrator = "bs"
+                sim.ri_bs.eps_rel = eps
+                sim.ri_bs.eps_abs = eps
+                ode = sim.create_ode(length=1, needs_nbody=False)
+
+                def rhs(o, yDot, y, t, dgr=dgr):
+                    yDot[0] = (t - 0.3) ** dgr
+                ode.derivatives = rhs
+                ode.y[0] = 0.7
+                sim.dt = sg * 1.3
+                sim.integrate(sg * 2.0)
+                exact = 0.7 + ((sim.t - 0.3) ** (dgr + 1) - (-0.3) ** (dgr + 1)) / (dgr + 1)
+                rel = abs(ode.y[0] - exact) / abs(exact)
+                poly[(eps, sg, dgr)] = rel
+                c.count(("bs-poly", eps, sg, dgr))
+                if not rel <= 1e-13:
+                    c.violation("bs:polynomial-exactness", "BS (eps=%g) does not integrate the user ODE y' = (t-0.3)^%d exactly: relative error %.2e" % (eps, dgr, rel),
+                                dict(eps=eps, degree=dgr, direction=sg, relative_error=rel, y0=0.7, t_end=sg * 2.0))
+    res["bs_user_ode_polynomial_worst_relative_error"] = float("%.2e" % max(poly.values()))
     # ---------------- SEI: shearing sheet, epicycles exact; with mutual gravity second order
     Om = 1.0
     y0 = [[0.1, 0.0, 0.02, 0.0, -1.5 * Om * 0.1 + 0.01, 0.0], [-0.15, 0.3, -0.01, 0.005, 1.5 * Om * 0.15, 0.01]]
